@@ -199,22 +199,24 @@ PROPS = {}
 PROPS['C01'] = dict(
     theorems=[],
     runner=ReaderRunner(
-        quick=[('fa_exh', 5), ('fa_rand', 20000), ('fa_path', 1500), ('fa_fault', 5000), ('fa_seek', 4000)],
-        thorough=[('fa_exh', 7), ('fa_rand', 400000), ('fa_path', 20000), ('fa_fault', 100000), ('fa_seek', 80000)],
+        quick=[('fa_exh', 5), ('fa_rand', 20000), ('fa_path', 1500), ('fa_fault', 5000), ('fa_seek', 4000), ('fa_cfg', 700)],
+        thorough=[('fa_exh', 7), ('fa_rand', 400000), ('fa_path', 20000), ('fa_fault', 100000), ('fa_seek', 80000), ('fa_cfg', 15000)],
         oracle=plain_or_any_state('fa')),
     rule='every string over {>,LF,CR,A,space} up to the length bound x every capacity 3..len+2 x chunkings {whole,1,2}, '
          'plus grammar-based and mutated FASTA files under random capacities, policies and read scripts, and readers opened with '
          'from_path / from_path_with_capacity on a real file (`P` cases); '
          'non-trivial = at least one record or error delivered and checked against S; distinct by case line; histories with injected '
-         'read / seek failures and refusing policies: what is read after a seek that succeeds is S\'s stream from the target on',
+         'read / seek failures and refusing policies: what is read after a seek that succeeds is S\'s stream from the target on; '
+         'the configuration groups of C03, among them files made for a buffer that may not grow (a few bytes, then a record about as long '
+         'as the buffer): a buffer-limit error only for a record that does not fit',
     assumptions=ASSUME_READER,
 )
 
 PROPS['C02'] = dict(
     theorems=[],
     runner=ReaderRunner(
-        quick=[('fq_exh', 5), ('fq_rand', 20000), ('fq_path', 1500), ('fq_fault', 5000), ('fq_seek', 4000)],
-        thorough=[('fq_exh', 7), ('fq_rand', 400000), ('fq_path', 20000), ('fq_fault', 100000), ('fq_seek', 80000)],
+        quick=[('fq_exh', 5), ('fq_rand', 20000), ('fq_path', 1500), ('fq_fault', 5000), ('fq_seek', 4000), ('fq_cfg', 700)],
+        thorough=[('fq_exh', 7), ('fq_rand', 400000), ('fq_path', 20000), ('fq_fault', 100000), ('fq_seek', 80000), ('fq_cfg', 15000)],
         oracle=plain_or_any_state('fq')),
     rule='every string over {@,+,LF,CR,A,space} up to the length bound x capacities x chunkings, plus grammar-based and '
          'mutated FASTQ files; non-trivial = at least one record delivered and checked against S',
